@@ -3,6 +3,7 @@
 package connectconformance
 
 import (
+	"bytes"
 	"fmt"
 	"os"
 	"path"
@@ -167,7 +168,77 @@ func verifC07TestCase(v vsx) *conformancev1.TestCase {
 		req.ClientTlsCreds = &conformancev1.TLSCreds{Key: []byte("JUNK"), Cert: []byte("JUNK")}
 		req.MessageReceiveLimit = 7
 	}
+	if len(v.l) > 7 {
+		verifC07SetExtras(tc, v.l[7])
+	}
 	return tc
+}
+
+// the fields of a TestCase besides the request: ((other allowed codes) (expand sizes) (explicit-expectation mark)?)
+const verifC07Mark = "verif:"
+
+func verifC07SetExtras(tc *conformancev1.TestCase, x vsx) {
+	for _, c := range x.l[0].l {
+		tc.OtherAllowedErrorCodes = append(tc.OtherAllowedErrorCodes, conformancev1.Code(c.i))
+	}
+	for _, e := range x.l[1].l {
+		tc.ExpandRequests = append(tc.ExpandRequests, &conformancev1.TestCase_ExpandedSize{SizeRelativeToLimit: proto.Int32(int32(e.i))})
+	}
+	if len(x.l[2].l) == 1 {
+		tc.ExpectedResponse = &conformancev1.ClientResponseResult{
+			Payloads: []*conformancev1.ConformancePayload{{Data: append([]byte(verifC07Mark), x.l[2].l[0].b...)}},
+			Error:    &conformancev1.Error{Code: conformancev1.Code_CODE_UNKNOWN},
+		}
+	}
+}
+
+func verifC07ExtrasParts(tc *conformancev1.TestCase) (other, expand []int64, mark []byte, marked bool) {
+	for _, c := range tc.OtherAllowedErrorCodes {
+		other = append(other, int64(c))
+	}
+	for _, e := range tc.ExpandRequests {
+		expand = append(expand, int64(e.GetSizeRelativeToLimit()))
+	}
+	if ps := tc.GetExpectedResponse().GetPayloads(); len(ps) > 0 && bytes.HasPrefix(ps[0].Data, []byte(verifC07Mark)) {
+		mark, marked = ps[0].Data[len(verifC07Mark):], true
+	}
+	return other, expand, mark, marked
+}
+
+func verifC07Extras(tc *conformancev1.TestCase) vsx {
+	other, expand, mark, marked := verifC07ExtrasParts(tc)
+	ints := func(l []int64) vsx {
+		out := make([]vsx, len(l))
+		for i, x := range l {
+			out[i] = vI(x)
+		}
+		return vL(out...)
+	}
+	m := vL()
+	if marked {
+		m = vL(vB(mark))
+	}
+	return vL(ints(other), ints(expand), m)
+}
+
+// name 0 #other other... #expand expand... (0 | 1 mark...): the model's perm_key
+func verifC07PermKey(tc *conformancev1.TestCase) string {
+	other, expand, mark, marked := verifC07ExtrasParts(tc)
+	key := []byte(tc.Request.TestName)
+	key = append(key, 0, byte(len(other)))
+	for _, c := range other {
+		key = append(key, byte(c))
+	}
+	key = append(key, byte(len(expand)))
+	for _, e := range expand {
+		key = append(key, byte(e))
+	}
+	if marked {
+		key = append(append(key, 1), mark...)
+	} else {
+		key = append(key, 0)
+	}
+	return string(key)
 }
 
 // suite: (name mode (protocols) (versions) (codecs) (compressions) cvm tls certs get limit (tcases...))
@@ -215,10 +286,10 @@ func verifC07Case(v vsx) configCase {
 	}
 }
 
-func verifC07SortedNames(tcs []*conformancev1.TestCase) vsx {
+func verifC07SortedKeys(tcs []*conformancev1.TestCase) vsx {
 	names := make([]string, 0, len(tcs))
 	for _, tc := range tcs {
-		names = append(names, tc.Request.TestName)
+		names = append(names, verifC07PermKey(tc))
 	}
 	sort.Strings(names)
 	return vStrs(names)
@@ -226,8 +297,8 @@ func verifC07SortedNames(tcs []*conformancev1.TestCase) vsx {
 
 // one expansion, projected:
 //   (ok ((name simple version protocol codec compression stream tls-cert creds service method limit
-//         rawreq rawresp (group: protocol version tls certs)) ... sorted by name)
-//       number-of-groups (names of allPermutations(true,true), sorted)
+//         rawreq rawresp (other-codes expand-sizes expectation-mark) (group: protocol version tls certs)) ... sorted by name)
+//       number-of-groups (name+other fields of allPermutations(true,true) as one key each, sorted)
 //       len allPermutations(false,false) len (true,false) len (false,true)
 //       (serverInstancesSlice(lib, true), in order) names-issued-twice-by-allPermutations(true,true))
 func verifC07Once(suites map[string]*conformancev1.TestSuite, cases []configCase, mode conformancev1.TestSuite_TestMode) vsx {
@@ -285,7 +356,7 @@ func verifC07Once(suites map[string]*conformancev1.TestSuite, cases []configCase
 			vI(int64(req.StreamType)),
 			vB(req.ServerTlsCert), verifC07Creds(req.ClientTlsCreds),
 			vS(req.GetService()), vS(req.GetMethod()), vI(int64(req.MessageReceiveLimit)),
-			vBool(req.RawRequest != nil), vBool(hasRawResponse(req.RequestMessages)),
+			vBool(req.RawRequest != nil), vBool(hasRawResponse(req.RequestMessages)), verifC07Extras(tc),
 			vL(vI(int64(inst.protocol)), vI(int64(inst.httpVersion)), vBool(inst.useTLS), vBool(inst.useTLSClientCerts)),
 		))
 	}
@@ -319,7 +390,7 @@ func verifC07Once(suites map[string]*conformancev1.TestSuite, cases []configCase
 	// (the ORDER of allPermutations and of the members of a group follows the map iteration order and is
 	// not compared: all_permutations_stable / groups_stable say only the multiset is fixed)
 	return vL(vS("ok"), vL(perms...), vInt(len(lib.casesByServer)),
-		verifC07SortedNames(all),
+		verifC07SortedKeys(all),
 		vInt(len(lib.allPermutations(false, false))),
 		vInt(len(lib.allPermutations(true, false))),
 		vInt(len(lib.allPermutations(false, true))),
@@ -371,7 +442,8 @@ func verifC07Lib(args []vsx) vsx {
 }
 
 // ("c07.filter" id client-is-grpc server-is-grpc ((name simple protocol version codec compression tls-cert rawreq rawresp)...))
-//   -> names of filterGRPCImplTestCases, in order
+//   -> (name (other-codes expand-sizes expectation-mark)) of filterGRPCImplTestCases, in order; an optional tenth
+//      element of a permutation gives those other fields of its TestCase
 func verifC07Filter(args []vsx) vsx {
 	lib := &testCaseLibrary{testCases: map[string]*conformancev1.TestCase{}, testCaseNames: map[string]string{}}
 	var tcs []*conformancev1.TestCase
@@ -398,21 +470,43 @@ func verifC07Filter(args []vsx) vsx {
 		}
 		lib.testCaseNames[req.TestName] = p.l[1].str()
 		tc := &conformancev1.TestCase{Request: req}
+		if len(p.l) > 9 {
+			verifC07SetExtras(tc, p.l[9])
+		}
 		lib.testCases[req.TestName] = tc
 		tcs = append(tcs, tc)
 	}
+	before := make([]*conformancev1.TestCase, len(tcs))
+	for i, tc := range tcs {
+		before[i] = proto.Clone(tc).(*conformancev1.TestCase) //nolint:errcheck,forcetypeassert
+	}
 	out := lib.filterGRPCImplTestCases(tcs, args[0].boolean(), args[1].boolean())
-	names := make([]string, 0, len(out))
+	names := make([]vsx, 0, len(out))
+	next := 0
 	for _, tc := range out {
-		names = append(names, tc.Request.TestName)
+		names = append(names, vL(vS(tc.Request.TestName), verifC07Extras(tc)))
+		// the whole message: each output is, in order, one of the inputs under another name
+		// (same_but_name over every field, also those the model does not look at)
+		found := false
+		for ; next < len(before) && !found; next++ {
+			want := proto.Clone(before[next]).(*conformancev1.TestCase) //nolint:errcheck,forcetypeassert
+			want.Request.TestName = tc.Request.TestName
+			found = proto.Equal(want, tc)
+		}
+		if !found && (args[0].boolean() || args[1].boolean()) {
+			return vErr("variant-differs-beyond-name")
+		}
 	}
 	// the input must be left alone
 	for i, p := range args[2].l {
 		if tcs[i].Request.TestName != p.l[0].str() {
 			return vErr("input-renamed")
 		}
+		if (args[0].boolean() || args[1].boolean()) && !proto.Equal(tcs[i], before[i]) {
+			return vErr("input-altered")
+		}
 	}
-	return vStrs(names)
+	return vL(names...)
 }
 
 // ("c07.join" id (elem...)) -> path.Join
